@@ -12,7 +12,8 @@ CLAIMED = {
         "Hypothesis search over grammar documents x valid configs, token soup, front-matter YAML vocabulary, hostile "
         "fragments for each documented error path and file-system faults on include / inventory paths, through both "
         "front ends (docutils publish_doctree; in-process Sphinx read_doc + post-transforms); oracle: no exception "
-        "escapes, a document is returned, faults are reported; escaping exceptions bucketed by call site; bounded search.",
+        "escapes, a document is returned, faults are reported; escaping exceptions bucketed by call site; bounded search."
+        " Also exhaustive: 66 hostile destinations x 17 link / image / directive spellings and 24 front-matter values of every YAML type x 4 keys x title_to_header modes, in both front ends; a name-clash generator; thorough tier adds two atheris campaigns (raw text, Hypothesis-driven).",
         "halt_level=5; linkify/gfm_only configurations need linkify-it-py (not importable) and are not generated; "
         "termination is bounded by a watchdog (60 s, re-run at 600 s).",
         "Hypothesis grammar + soup + fault injection; crash/termination oracle with call-site bucketing",
@@ -24,7 +25,8 @@ CLAIMED = {
         "the markdown-it token tree of the same text is mapped to an abstract skeleton by ~150 lines of model code, the "
         "doctree by a generic walker, and the two (and the two front ends) must be equal - leaves once, in order, "
         "verbatim, same nesting, destinations / uri / alt / title / list start and delimiter / cell alignment / code "
-        "language carried over; bounded search.",
+        "language carried over; bounded search."
+        " Also exhaustive: heading-level sequences, and 13 code languages x nesting x fence with highlighting on.",
         "Dynamic syntax (directive fences, roles, footnotes, inventory links) is excluded and counted; link destinations "
         "compared where unambiguous; highlighting off in docutils (pygments blank-line stripping is an open finding, as "
         "is the HTML-escaped refuri).",
@@ -37,7 +39,8 @@ CLAIMED = {
         "directives, and the cross-reference vocabulary of the totality check; each checked directly after parsing and "
         "after the transform pipeline (docutils) and after read + post-transforms (Sphinx); oracle: validity predicate "
         "over the tree (parent pointers, single occurrence, section / transition placement, id uniqueness and registry, "
-        "refid / backref resolution, row widths, footnote labels); bounded search.",
+        "refid / backref resolution, row widths, footnote labels); bounded search."
+        " Also: ids on failing constructs, nested line blocks, named HTML elements, docutils security switches.",
         "Cases whose rendering raises belong to C01; suppress_warnings is stripped (C14); system messages held in "
         "document.transform_messages count as present; Sphinx removes system messages by design.",
         "Hypothesis grammar + collision generators; validity-predicate (invariant) oracle in three phases",
@@ -49,7 +52,8 @@ CLAIMED = {
         "start-line / start-after); ground truth by construction (the serializer records the first line of every "
         "construct); oracle on the pre-transform doctree: node.line of the marked node, the lines of its chain of "
         "container ancestors, the '<source>:<line>:' prefix and system_message line of every MyST warning, source path "
-        "and file-relative lines inside includes; bounded search.",
+        "and file-relative lines inside includes; bounded search."
+        " Also: warnings raised by transforms (unreferenced footnotes), fenced languages without a lexer (highlighting on), blank lines after a container's opening fence.",
         "Warning-producing inline constructs sit in one-line paragraphs; docutils-made nodes and table rows / cells "
         "(untrue value pinned by the gettext fixtures) are outside the domain; the include +1 offset is an open finding.",
         "exhaustive wrapper-shape enumeration + Hypothesis trees; ground-truth-by-construction oracle",
@@ -58,7 +62,8 @@ CLAIMED = {
         "Every sequence of heading levels 1-6 up to length 5/6 (exhaustive) and Hypothesis sequences up to length 40 "
         "with filler blocks, nested headings in quotes / lists / admonitions and heading-offset includes, against a "
         "stack-machine reference model (parents, paragraph ownership, warning count and lines, rubric levels, "
-        "structure invariance under deletion of nested headings); bounded search.",
+        "structure invariance under deletion of nested headings); bounded search."
+        " Also exhaustive: setext spellings, a front-matter title as first H1, nested includes.",
         "doctitle/sectsubtitle transforms off; match_titles=True directives (Sphinx 'only') not generated.",
         "exhaustive level sequences + Hypothesis; reference-model (stack machine) + metamorphic (delete nested headings) oracles",
     ),
@@ -68,7 +73,8 @@ CLAIMED = {
         "lines), in an include of a generated file, or in a block substitution, each optionally inside further "
         "directives, with text after the wrapper that uses a footnote and a target defined inside X; metamorphic "
         "oracle: pre-transform children of the innermost wrapper == nodes of X in place, and the published tree with the "
-        "wrappers spliced out == the published in-place tree (pformat, line / source masked); bounded search.",
+        "wrappers spliced out == the published in-place tree (pformat, line / source masked); bounded search."
+        " Also: the included file keeps its path across cases, is included twice, or is selected with start-after / end-before.",
         "Position-dependent directives are not generated inside X; substitution X avoids Jinja delimiters; outer use "
         "of a link reference definition made inside X is an open finding, replayed but not drawn.",
         "Hypothesis grammar; metamorphic oracle (wrapped vs in-place rendering, before and after transforms)",
@@ -76,7 +82,8 @@ CLAIMED = {
     "C07": (
         "Exhaustive enumeration of all strings up to length 5 (quick) / 6 (thorough) over a 14-character "
         "YAML-significant alphabet, plus Hypothesis grammar-generated and mutated option blocks and (thorough) "
-        "an atheris campaign, each compared with PyYAML's event stream; bounded search, not a proof.",
+        "an atheris campaign, each compared with PyYAML's event stream; bounded search, not a proof."
+        " Also: the documented line / column offsets must shift both error marks by exactly that amount; enumerations stop after three non-terminating inputs.",
         "Trusts PyYAML (ruamel.yaml as tie-breaker) as the conforming YAML loader; subset membership is decided "
         "from PyYAML's events; keys/mapping at column 0, no tab as separator.",
         "exhaustive small-string enumeration + Hypothesis grammar/mutation + atheris; differential oracle (PyYAML events)",
@@ -89,7 +96,8 @@ CLAIMED = {
         "sets, block and inline: image nodes and warnings == those of the image directive with double-quoted options; "
         "Hypothesis <div class=admonition> structures == the admonition directive; every disallowed tag x open / close x "
         "13 following characters x 3 letter cases (exhaustive) and Hypothesis tag soup in GFM mode: raw text == scanner "
-        "model of the tag filter and html.parser sees none of the nine tags; bounded search.",
+        "model of the tag filter and html.parser sees none of the nine tags; bounded search."
+        " Also: an unterminated earlier document, the GFM filter next to each HTML extension, several admonitions in one block.",
         "GFM mode through create_md_parser(gfm config) with linkify disabled; the equivalent directive uses "
         "double-quoted option values (C07-verified form).",
         "exhaustive fragment / attribute-value / tag-spelling enumeration + Hypothesis; differential (token contents, directive spelling) + reference-model (tag-filter scanner) oracles",
@@ -97,7 +105,8 @@ CLAIMED = {
     "C18": (
         "Hypothesis-generated object tables serialised as v1/v2 inventories (plus line-level mutations), loaded "
         "through every 1- and 2-split chunking of small files and random chunk-size sequences of larger ones; "
-        "differential against Sphinx's own loader, chunking metamorphic relation, Sphinx-format round trip; bounded search.",
+        "differential against Sphinx's own loader, chunking metamorphic relation, Sphinx-format round trip; bounded search."
+        " Also: inventories of 400-6000 entries (several read buffers) under large / ragged reads; consecutive malformed lines.",
         "Trusts sphinx.util.inventory.InventoryFile.loads (8.2.3) as reference; names avoid the exotic line separators "
         "on which str.splitlines and a '\\n' split legitimately differ.",
         "Hypothesis table generator + exhaustive small-file chunk partitions; differential (Sphinx loader) + metamorphic (chunking) + round-trip oracles",
@@ -106,7 +115,8 @@ CLAIMED = {
         "Exhaustive (pattern, name) pairs up to 4x4 / 5x5 over a 6-character alphabet incl. '*', '\\' and regex "
         "metacharacters against a reference matcher written from the statement (dynamic programming, no re), random "
         "longer pairs, generated inventories x filter quadruples against a brute-force filter (native and Sphinx "
-        "representation), and inv: links in every spelling through the docutils front end; bounded search.",
+        "representation), and inv: links in every spelling through the docutils front end; bounded search."
+        " Also: the empty pattern, patterns reaching across the domain / type boundary, inventory files that keep their path across cases, one file under two keys, repeated destinations.",
         "Reference matcher is hand-written from the statement; link targets restricted to URL-safe characters so "
         "markdown-it link normalisation is the identity.",
         "exhaustive small-pair enumeration + Hypothesis; reference-model oracle (DP matcher, brute-force filter)",
@@ -115,7 +125,8 @@ CLAIMED = {
         "Exhaustive contents (<=4/5 lines over a 12-line vocabulary, with and without final newline) x 36 synthetic "
         "directive shapes x first lines, plus Hypothesis-generated option blocks for every directive class in the "
         "docutils/Sphinx/domain registries (~150 'programs'); reference model of the documented split, the class's own "
-        "converters as value oracle; bounded search.",
+        "converters as value oracle; bounded search."
+        " Also: option names differing only in letter case from a declared one.",
         "Tokenization of simple 'key: value' option lines is taken from the tokenizer verified by C07; trailing blank "
         "body lines are don't-care.",
         "exhaustive vocabulary enumeration over class shapes + Hypothesis over registry classes; reference-model oracle",
@@ -124,7 +135,8 @@ CLAIMED = {
         "All 9330 sequences of <=5 headings over six colliding titles (exhaustive in thorough, all <=4 plus a quarter "
         "of length 5 in quick) and Hypothesis title sequences over Unicode / punctuation / inline markup, anchor depth "
         "0-7, default / dotted-path / raising slug functions; three-way oracle: reference model of the documented GitHub "
-        "rule, myst-anchors output for the same text, self-resolution of '[](#slug)'; bounded search.",
+        "rule, myst-anchors output for the same text, self-resolution of '[](#slug)'; bounded search."
+        " Also exhaustive: documents rendered by one reused parser object; the same headings through an include with a heading offset.",
         "Model asserted only for titles without outer white space (documentation silent); headings inside directive "
         "bodies excluded (CLI cannot see them).",
         "exhaustive small-alphabet sequences + Hypothesis; reference-model + differential (myst-anchors CLI) + round-trip (link resolution) oracles",
@@ -137,7 +149,8 @@ CLAIMED = {
         "by its marker in the written page; href joined to the page path must be the target's page / an id on the "
         "element holding the expected (k-th) heading / a byte-identical copy of the file; link text = explicit text with "
         "nested tags or the target's title; missing targets: exactly one xref_missing warning at the link's line, text "
-        "kept; no warning for resolvable links; bounded search.",
+        "kept; no warning for resolvable links; bounded search."
+        " Also: documents named like a directory, labels with capitals, non-ASCII headings, the same relative destination written by pages of different directories in one project.",
         "Names unique by construction (no xref_ambiguous); text of empty links to missing targets unconstrained; expected "
         "fragments are validated against the written page, not predicted.",
         "exhaustive spelling-table enumeration + Hypothesis projects; output-based validity oracle independent of the resolver (BeautifulSoup over the built site)",
@@ -151,7 +164,8 @@ CLAIMED = {
         "canonically typed configuration; front-matter setting == global setting for every local field (fixed "
         "feature-rich document x value table x 3 global configurations, and Hypothesis documents), with dict merge; "
         "invalid front-matter value => exactly one topmatter warning and unchanged rendering; global configuration "
-        "object unchanged by parses in a live Sphinx app and by merge_file_level; bounded search.",
+        "object unchanged by parses in a live Sphinx app and by merge_file_level; bounded search."
+        " Also: importable non-callables, front matter closed with '...', figure-md with html_image enabled globally.",
         "Type table written from the documentation, silent cases UNSPECIFIED; commonmark_only in front matter is an "
         "open finding; gfm_only / linkify effects need linkify-it-py.",
         "exhaustive type-table enumeration + Hypothesis; reference-model (type table) + differential (entry points / spellings) + metamorphic (front matter vs global) oracles",
@@ -163,7 +177,8 @@ CLAIMED = {
         "warning-emitting call site in the package (47 sites); oracles: every emitted myst tag is in the MystWarnings "
         "catalogue and every trigger emits its documented tag in both front ends; suppressed run == unsuppressed run "
         "minus exactly the matched log lines and system_message nodes (order and remaining pformat identical); call "
-        "sites pass a catalogue member / literal or an explicit non-myst type; bounded search.",
+        "sites pass a catalogue member / literal or an explicit non-myst type; bounded search."
+        " Also: the suppress list as docutils' option string; Sphinx with keep_warnings; unreadable inventory files; a third-party Sphinx domain (myst.domains).",
         "'Every catalogue warning is emitted' is read as 'whenever emitted, tagged'; render / html / xref_ambiguous / "
         "domains are covered statically only; Sphinx removes system_message nodes by design.",
         "exhaustive trigger x suppress-list enumeration + Hypothesis; metamorphic (suppression) + catalogue-membership oracles; exhaustive AST call-site enumeration",
@@ -177,7 +192,8 @@ CLAIMED = {
         "object, or in one long-lived Sphinx application; every step's doctree + warnings must equal the reference "
         "computed in a pristine process (fresh fork of a server that imported but never parsed; fresh Sphinx app). Plus "
         "generated 8-12 document Sphinx projects built with 1 vs 2-4 read workers: html files byte-identical, sorted "
-        "warnings equal; bounded search.",
+        "warnings equal; bounded search."
+        " Also: a reused docutils settings object; one inventory file under several base URLs; sectioned projects and one dense project per shard in the parallel sub-check.",
         "Parallel schedules are sampled through worker counts only; docutils' own process-wide role / directive "
         "registries are reset between examples and not charged to MyST; a live Sphinx app and standalone docutils "
         "parses are not mixed in one process.",
@@ -186,7 +202,8 @@ CLAIMED = {
     "C16": (
         "Hypothesis markup soup (totality, termination, tree consistency), grammar-generated well-formed HTML and "
         "exhaustive forests of <=4/5 nodes (exact round trip, copy/strip isolation, find = brute-force filter), "
-        "atheris campaign in the thorough tier; bounded search.",
+        "atheris campaign in the thorough tier; bounded search."
+        " Also: history (an unterminated string parsed first), copies edited before the original is compared, nesting depths to 3000 (thorough 20000), two root names.",
         "Well-formed = the forms the statement lists, in the parser's canonical spelling; stdlib html.parser is part "
         "of the code under test.",
         "Hypothesis soup + grammar round-trip + exhaustive small forests + atheris; round-trip / invariant / brute-force reference oracles",
@@ -198,7 +215,8 @@ CLAIMED = {
         "names, through docutils and the in-process Sphinx reader; the generator knows the node each link must hit "
         "(marker words, heading index, independent slug model); oracle: refid in that node's ids, explicit beats slug, "
         "empty text = target title or '#name', one xref_missing warning per missing link at its line, link count "
-        "preserved; bounded search.",
+        "preserved; bounded search."
+        " Also: bare targets, names needing percent-encoding, names whose identifier differs from the name.",
         "Links sit in one-line paragraphs; empty-text links to missing targets (pinned by a fixture), case-variant and "
         "duplicate names get weak checks; Sphinx math labels are outside the statement's target kinds.",
         "exhaustive kind x placement enumeration + Hypothesis; reference-model oracle with ground truth by construction",
@@ -209,7 +227,8 @@ CLAIMED = {
         "duplicates, unreferenced, references inside definitions, definitions in quotes / list items / admonitions) "
         "under footnote_sort x footnote_transition, through docutils and the in-process Sphinx reader; reference model "
         "of numbering, per-reference target / displayed number / backrefs, placement and order of collected footnotes, "
-        "transition, exact [ref.footnote] warning multiset with lines, no text lost; bounded search.",
+        "transition, exact [ref.footnote] warning multiset with lines, no text lost; bounded search."
+        " Also: names shared with headings / targets; the two options selected in the front matter over an opposite global value.",
         "Numbering order asserted only with sorting enabled (statement ambiguous otherwise); undefined-label references "
         "and dropped duplicates' text are don't-care.",
         "exhaustive small arrangements + Hypothesis; reference-model oracle (numbering, placement, warning multiset)",
@@ -222,7 +241,8 @@ CLAIMED = {
         "sentinel file, nested 0-3 deep in 8 container kinds, each published under the 4 combinations of raw_enabled "
         "x file_insertion_enabled; every construct x wrapper exhaustively; oracle: no raw node / no sentinel in tree "
         "or html5 output, no open() of a sentinel file (audit hook), a warning per refusal, markers intact and "
-        "identically placed in all 4 runs, positive control with both on; bounded search.",
+        "identically placed in all 4 runs, positive control with both on; bounded search."
+        " Also: absolute / '<...>' / missing file names, suppressed MyST warnings next to the switches, the switches given as 0 / 1.",
         "docutils front end; file reads observed via the CPython 'open' audit event; image :scale: needs PIL (absent).",
         "Hypothesis + exhaustive construct x wrapper enumeration; invariant oracle over 4 settings runs with audit-hook fault observation and positive control",
     ),
